@@ -5,7 +5,7 @@ import ast
 from typing import Dict, List, Optional, Tuple
 
 from .. import norm
-from ..model import AnalysisError, Func, Program, own_nodes, parent, stmt_text
+from ..model import AnalysisError, Func, Program, own_nodes, parent, stmt_text, same_fn
 from ..util import calls_named
 
 RS = "eudoxia/workload/runtime_status.py"
@@ -85,7 +85,7 @@ def transition_calls_deep(P, f: Func, depth: int = 2, _seen=None):
         if isinstance(c, ast.Call) and isinstance(c.func, ast.Attribute) and norm.is_name(c.func.value, "self") and cls \
                 and c.func.attr in cls.methods and c.func.attr != "transition":
             g = cls.methods[c.func.attr]
-            if id(g.node) in _seen or g.node is f.node:
+            if id(g.node) in _seen or same_fn(g, f):
                 continue
             for (fn2, c2, r2, s2, chain) in transition_calls_deep(P, g, depth - 1, _seen | {id(f.node)}):
                 out.append((fn2, c2, r2, s2, [c] + chain))
